@@ -31,6 +31,14 @@ var c13Contexts = [][2]string{
 	{"set s to pattern %B find all ('y' s) or ('x' s)", "find all ('y' %B) or ('x' %B)"},
 	{"set s to pattern %B set t to pattern s 'x' find all t", "find all %B 'x'"},
 	{"set s to pattern %B set t to pattern 'x' s find all t t", "find all 'x' %B 'x' %B"},
+	// a definition referenced before a loop and again inside it (the loop body is generated more than once)
+	{"set s to pattern %B find all s at least 1 s", "find all %B at least 1 %B"},
+	{"set s to pattern %B find all s between 1 and 2 s", "find all %B between 1 and 2 %B"},
+	{"find all {%B} = s at least 1 s", "find all %B at least 1 %B"},
+	{"find all {%B} = s at least 2 s", "find all %B at least 2 %B"},
+	{"set s to pattern %B find all s 'x' at least 1 s", "find all %B 'x' at least 1 %B"},
+	{"set s to pattern %B find all s at least 1 (s or 'x')", "find all %B at least 1 (%B or 'x')"},
+	{"set s to pattern %B find all at least 1 s at least 1 ('x' s)", "find all at least 1 %B at least 1 ('x' %B)"},
 }
 
 // multi-command programs: the result must be the concatenation of the commands run alone
